@@ -24,7 +24,9 @@ THEOREMS = ['C12_expand_shorthand', 'C12_interpolates_evenly_spaced',
             'C12_option_tokens_words', 'C12_importance_of_cell',
             'C12_importance_missing_refused', 'C12_skipped_iff_zero',
             'C12_converted_iff_nonzero', 'C12_data_card_max_zero',
-            'C12_chain_zero_iff', 'C12_cell_card_zero_iff',
+            'C12_chain_zero_iff', 'C12_option_tokens_app',
+            'C12_last_value_app', 'C12_like_written_zero_iff',
+            'C12_cell_card_zero_iff',
             'C12_plain_card_zero_iff', 'C12_conv_keys_not_skipped',
             'C12_written_volumes']
 TRUSTED = [
